@@ -954,3 +954,149 @@ Proof.
   - replace (Z.eqb (f x) (f r)) with false; [apply IH; assumption|].
     symmetry. apply Z.eqb_neq. intros E. apply Hx. rewrite E. apply in_map. exact Hr.
 Qed.
+
+Section DailyPredict.
+  Context {V K : Type}.
+  Variable finite : V -> bool.
+  Variable predict_sub : K -> V -> option V.
+  Variable member : K -> @drow V -> bool.
+  Variable keys : list K.
+
+  Notation keepb := (keep finite).
+  Notation okb := (cell_ok finite).
+
+  Definition val (k : K) (r : @drow V) : option V :=
+    match d_temp r with Some t => predict_sub k t | None => None end.
+  (* the prediction of the one sub-model that selects the row *)
+  Definition pred_of (r : @drow V) : option V :=
+    match filter (fun k => member k r) keys with k :: _ => val k r | [] => None end.
+
+  Lemma matches_of_row : forall kept r, NoDup (map d_ts kept) -> In r kept ->
+    filter (fun p => Z.eqb (fst p) (d_ts r)) (segment_predictions predict_sub member keys kept)
+    = map (fun k => (d_ts r, val k r)) (filter (fun k => member k r) keys).
+  Proof.
+    intros kept r Hnd Hr. unfold segment_predictions. rewrite filter_flat_map.
+    induction keys as [|k ks IH]; [reflexivity|]. cbn [flat_map filter].
+    rewrite IH. rewrite filter_map_comm. cbn [fst].
+    rewrite filter_comm. rewrite (filter_label_unique _ d_ts kept r Hnd Hr). cbn [filter].
+    destruct (member k r); cbn [map app]; reflexivity.
+  Qed.
+
+  Lemma join_left_exact : forall kept, NoDup (map d_ts kept) ->
+    (forall r, In r kept -> length (filter (fun k => member k r) keys) = 1) ->
+    join_left kept (segment_predictions predict_sub member keys kept) = map (fun r => (r, pred_of r)) kept.
+  Proof.
+    intros kept Hnd Hcov. unfold join_left. apply flat_map_single. intros r Hr.
+    rewrite (matches_of_row kept r Hnd Hr). specialize (Hcov r Hr). unfold pred_of.
+    destruct (filter (fun k => member k r) keys) as [|k [|k' t]]; try discriminate. reflexivity.
+  Qed.
+
+  Lemma dropped_are_not_kept : forall s obs, NoDup (map d_ts s) ->
+    filter (fun r => negb (existsb (Z.eqb (d_ts r)) (map d_ts (filter (keepb obs) s)))) s
+    = filter (fun r => negb (keepb obs r)) s.
+  Proof.
+    intros s obs Hnd. apply filter_ext_in. intros r Hr. f_equal.
+    destruct (keepb obs r) eqn:E.
+    - apply existsb_exists. exists (d_ts r). split; [|apply Z.eqb_refl].
+      apply in_map. apply filter_In. split; assumption.
+    - apply not_true_is_false. intros H. apply existsb_exists in H. destruct H as (t & Ht & Et).
+      apply Z.eqb_eq in Et. subst t. apply in_map_iff in Ht. destruct Ht as (r' & Hl & Hr').
+      apply filter_In in Hr'. destruct Hr' as [Hr' Hk].
+      assert (r' = r) by (apply (NoDup_map_inj _ d_ts s); assumption). subst r'. congruence.
+  Qed.
+
+  (* what daily_predict computes when labels are unique and every kept row is selected by exactly one sub-model *)
+  Lemma daily_predict_shape : forall obs rows, NoDup (map d_ts rows) ->
+    exact_cover finite member keys obs rows ->
+    let s := sort_by d_ts rows in
+    daily_predict finite predict_sub member keys obs rows
+    = sort_by (fun rp => d_ts (fst rp))
+        (map (fun r => (r, pred_of r)) (filter (keepb obs) s)
+         ++ map (fun r => (r, None)) (filter (fun r => negb (keepb obs r)) s)).
+  Proof.
+    intros obs rows Hnd Hcov s. unfold daily_predict, initialize_data. fold s.
+    assert (Hs : NoDup (map d_ts s)).
+    { eapply Permutation_NoDup; [apply Permutation_map; apply Permutation_sym; apply sort_by_perm | exact Hnd]. }
+    rewrite (dropped_are_not_kept s obs Hs).
+    rewrite join_left_exact; [reflexivity | apply NoDup_map_filter; exact Hs |].
+    intros r Hr. apply filter_In in Hr. destruct Hr as [Hr Hk]. apply Hcov; [|exact Hk].
+    eapply Permutation_in; [apply sort_by_perm | exact Hr].
+  Qed.
+
+  Lemma daily_predict_perm_l : forall obs rows, NoDup (map d_ts rows) ->
+    exact_cover finite member keys obs rows ->
+    let out := daily_predict finite predict_sub member keys obs rows in
+    Permutation (map fst out) rows /\ LocallySorted Z.le (map (fun rp => d_ts (fst rp)) out).
+  Proof.
+    intros obs rows Hnd Hcov out. unfold out. rewrite (daily_predict_shape obs rows Hnd Hcov). split.
+    - eapply Permutation_trans; [apply Permutation_map; apply sort_by_perm|].
+      rewrite map_app, !map_map. cbn [fst]. rewrite !map_id.
+      eapply Permutation_trans; [apply filter_split_perm | apply sort_by_perm].
+    - match goal with |- context [sort_by ?k ?l] => pose proof (sort_by_sorted k l) as S; revert S; generalize (sort_by k l) end.
+      intros l S. induction S as [|a|a b l S IH Hab]; cbn [map]; constructor; [exact IH | exact Hab].
+  Qed.
+
+  (* oracle contract of the sub-model curve: finite for a finite temperature *)
+  Hypothesis predict_sub_finite : forall k t, finite t = true -> exists v, predict_sub k t = Some v /\ finite v = true.
+
+  Lemma daily_finite_iff_l : forall obs rows, NoDup (map d_ts rows) ->
+    exact_cover finite member keys obs rows ->
+    forall rp, In rp (daily_predict finite predict_sub member keys obs rows) -> okb (snd rp) = keepb obs (fst rp).
+  Proof.
+    intros obs rows Hnd Hcov rp Hin. rewrite (daily_predict_shape obs rows Hnd Hcov) in Hin.
+    eapply Permutation_in in Hin; [|apply sort_by_perm]. apply in_app_or in Hin. destruct Hin as [Hin|Hin].
+    - apply in_map_iff in Hin. destruct Hin as (r & E & Hr). subst rp. cbn [fst snd].
+      apply filter_In in Hr. destruct Hr as [Hr Hk]. rewrite Hk.
+      assert (Hc : length (filter (fun k => member k r) keys) = 1).
+      { apply Hcov; [|exact Hk]. eapply Permutation_in; [apply sort_by_perm | exact Hr]. }
+      unfold pred_of. destruct (filter (fun k => member k r) keys) as [|k t]; [discriminate|].
+      unfold keep in Hk. apply andb_true_iff in Hk. destruct Hk as [Ht _].
+      unfold val. unfold cell_ok in Ht. destruct (d_temp r) as [t0|]; [|discriminate].
+      destruct (predict_sub_finite k t0 Ht) as (v & Ev & Fv). rewrite Ev. cbn [cell_ok]. exact Fv.
+    - apply in_map_iff in Hin. destruct Hin as (r & E & Hr). subst rp. cbn [fst snd cell_ok].
+      apply filter_In in Hr. destruct Hr as [_ Hk]. apply negb_true_iff in Hk. rewrite Hk. reflexivity.
+  Qed.
+End DailyPredict.
+
+(* ================================================================== derived forms used by Properties/C06.v *)
+Section Derived.
+  Context {V : Type}.
+  Variable mean2 : V -> V -> V.
+
+  Lemma transform_dst_pointwise_l : forall pat pred out, pattern_ok pat = true -> length pred = 24 * length pat ->
+    transform_dst mean2 pred (indices_of pat) = Ok out -> by_day mean2 pat pred = Some out.
+  Proof.
+    intros pat pred out Hok Hlen E. destruct (transform_dst_pattern mean2 pat pred Hok Hlen) as (o & E1 & E2 & _).
+    rewrite E in E1. inversion E1; subst. exact E2.
+  Qed.
+
+  Lemma transform_dst_total_l : forall pat pred, pattern_ok pat = true -> length pred = 24 * length pat ->
+    exists out, transform_dst mean2 pred (indices_of pat) = Ok out.
+  Proof.
+    intros pat pred Hok Hlen. destruct (transform_dst_pattern mean2 pat pred Hok Hlen) as (o & E1 & _). eauto.
+  Qed.
+
+  Lemma transform_dst_eq_spec_l : forall pat pred out, pattern_ok pat = true -> length pred = 24 * length pat ->
+    (transform_dst mean2 pred (indices_of pat) = Ok out <-> transform_spec mean2 pred (indices_of pat) = Some out).
+  Proof.
+    intros pat pred out Hok Hlen. destruct (transform_dst_pattern mean2 pat pred Hok Hlen) as (o & E1 & _ & E3).
+    rewrite E1, E3. split; intros H; inversion H; reflexivity.
+  Qed.
+
+  Lemma transform_dst_length_l : forall pat pred out, pattern_ok pat = true -> length pred = 24 * length pat ->
+    transform_dst mean2 pred (indices_of pat) = Ok out -> length out = total_rows pat.
+  Proof.
+    intros pat pred out Hok Hlen E. apply (by_day_length mean2 pat pred); [apply pattern_ok_kind_ok; exact Hok | exact Hlen|].
+    apply transform_dst_pointwise_l; assumption.
+  Qed.
+
+  (* the source comment "the block above is equivalent to" for any well-formed operation list, not only those of a
+     clock pattern *)
+  Lemma loop_equals_slicing_l : forall pred ops vals, wfv mean2 pred 0 ops vals ->
+    loop_spec mean2 pred 0%Z ops = Some (slices pred None ops vals).
+  Proof.
+    intros pred ops vals H. pose proof (loop_slices mean2 pred ops [] 0 vals ltac:(lia) H) as L.
+    cbn [app length skipn] in L. change (Z.of_nat 0 - Z.of_nat 0)%Z with 0%Z in L.
+    rewrite L, slices_slices2. reflexivity.
+  Qed.
+End Derived.
